@@ -32,7 +32,7 @@ Proof.
   - rewrite lay1_cons, rsizes_app, IH, iszs_cons, lay1_blk, isz_blk. cbn [rsizes fold_right]. rewrite !rsize_eq.
     rewrite rsizes_app, leaf_row_rsizes, len_hd_pays. cbn [rsizes fold_right]. rewrite rsize_eq, IHb. lia.
   - rewrite lay1_cons, rsizes_app, IH, iszs_cons, isz_leaf. cbn [lay1_item rsizes fold_right]. rewrite rsize_eq.
-    fold (rsizes (leaf_row (b + 2 + nlf lk fa) (cst_pays h (ta_off lk off fa) ta))). rewrite !leaf_row_rsizes, len_lhd_pays, len_cst_pays. lia.
+    fold (rsizes (leaf_row (b + 2 + nlf lk fa) (cst_pays h tbl (ta_off lk off fa) ta))). rewrite !leaf_row_rsizes, len_lhd_pays, len_cst_pays. lia.
 Qed.
 
 Lemma lay1_nodes h tbl : forall l b off x, In x (rnodesl (lay1 h tbl b off l)) -> b <= x < b + N.of_nat (iszs l).
@@ -50,7 +50,7 @@ Proof.
     + apply IH in Hx. rewrite isz_blk in Hx. lia.
   - rewrite lay1_cons, rnodesl_app in Hx. rewrite iszs_cons, isz_leaf. apply in_app_or in Hx. destruct Hx as [Hx|Hx].
     + cbn [lay1_item] in Hx. unfold rnodesl in Hx. cbn [flat_map] in Hx. rewrite rnodes_eq in Hx. cbn [app In] in Hx.
-      fold (rnodesl (leaf_row (b + 2 + nlf lk fa) (cst_pays h (ta_off lk off fa) ta))) in Hx. unfold nlf in Hx.
+      fold (rnodesl (leaf_row (b + 2 + nlf lk fa) (cst_pays h tbl (ta_off lk off fa) ta))) in Hx. unfold nlf in Hx.
       destruct Hx as [<-|Hx]; [lia|]. apply in_app_or in Hx. destruct Hx as [Hx|Hx]; apply leaf_row_nodes in Hx; rewrite ?len_lhd_pays, ?len_cst_pays in Hx; lia.
     + apply IH in Hx. rewrite isz_leaf in Hx. lia.
 Qed.
@@ -228,13 +228,13 @@ Qed.
 Lemma post1_leaf g pl sc h tbl lk seg fa ta off :
   sc < N.of_nat (length pl) -> length (g_kids g) = length pl ->
   Post1 g pl (g_args (g_args (g_head g sc) (N.of_nat (length pl)) (1 + length (lfx lk fa))) sc (length ta))
-        (pl ++ (lf_pay h lk off name_zero :: lhd_pays h tbl lk off fa) ++ cst_pays h (ta_off lk off fa) ta) sc
+        (pl ++ (lf_pay h lk off name_zero :: lhd_pays h tbl lk off fa) ++ cst_pays h tbl (ta_off lk off fa) ta) sc
         (lay1_item h tbl (N.of_nat (length pl)) off (ILeaf lk seg fa ta)).
 Proof.
   intros Hsc Hlg. set (b := N.of_nat (length pl)) in *.
   set (nf := length (lfx lk fa)) in *. set (nt := length ta).
   set (G1 := g_args (g_head g sc) b (1 + nf)).
-  set (hdp := lhd_pays h tbl lk off fa). set (cs := cst_pays h (ta_off lk off fa) ta).
+  set (hdp := lhd_pays h tbl lk off fa). set (cs := cst_pays h tbl (ta_off lk off fa) ta).
   assert (Hlh : length hdp = S nf) by apply len_lhd_pays.
   assert (Hlc : length cs = nt) by apply len_cst_pays.
   set (news := (lf_pay h lk off name_zero :: hdp) ++ cs).
@@ -485,46 +485,66 @@ Qed.
 Lemma cst_loop : forall ta fo fi off e t sc ss es g pl pre post a (Q : pres -> pstate -> Prop),
   Rep t g pl -> g_free g = [] -> N.of_nat (length pl) + N.of_nat (length ta) < InvalidIndex ->
   data = pre ++ enc_ta ta ++ post -> off = lenN pre -> lenN pre + lenN (enc_ta ta) <= e -> e <= len ->
-  forallb cst_okb ta = true -> pget pl sc = Some a -> y_op a <> opFreed ->
-  (forall t', Rep t' (g_args g sc (length ta)) (pl ++ cst_pays h off ta) ->
+  forallb targ_okb ta = true -> pget pl sc = Some a -> y_op a <> opFreed ->
+  (forall t', Rep t' (g_args g sc (length ta)) (pl ++ cst_pays h tbl off ta) ->
       wp False (list_cont fo (S (S (S fi)))) (st1 (off + lenN (enc_ta ta)) e t' (sc :: ss) (e :: es)) Q) ->
   wp False (list_cont fo (length ta + S (S (S fi)))) (st1 off e t (sc :: ss) (e :: es)) Q.
 Proof.
   induction ta as [|d r IH]; intros fo fi off e t sc ss es g pl pre post a Q H Hfree Hroom Hd Ho He Hel Hok Hsc Hlsc K.
   - cbn [length Nat.add]. specialize (K t). cbn [length g_args cst_pays enc_ta flat_map] in K. rewrite app_nil_r in K.
     change (lenN (@nil N)) with 0 in K. rewrite N.add_0_r in K. apply K. exact H.
-  - cbn [forallb] in Hok. apply andb_prop in Hok. destruct Hok as [Hdok Hok]. unfold cst_okb in Hdok. apply andb_prop in Hdok.
-    destruct Hdok as [Hc Hv]. apply N.ltb_lt in Hv.
+  - cbn [forallb] in Hok. apply andb_prop in Hok. destruct Hok as [Hdok Hok].
     cbn [length] in *. unfold enc_ta in Hd, He. cbn [flat_map] in Hd, He. fold (enc_ta r) in Hd, He. subst off.
     assert (Hsclt : sc < N.of_nat (length pl)) by (eapply pget_lt; eauto).
     set (s0 := st1 (lenN pre) e t (sc :: ss) (e :: es)).
-    assert (Hat : at_token (p_r s0) pre (enc_op (d_op d) ++ Grammar.le_bytes (const_bytes (d_op d)) (d_v d) ++ enc_ta r) post).
-    { apply mk_at; [ |reflexivity| |exact Hel|exact Hlen|exact Hsmall|exact Hbytes].
-      - rewrite Hd. unfold enc_const. rewrite <- !app_assoc. reflexivity.
-      - rewrite lenN_app in He. unfold enc_const in He. rewrite !lenN_app in *. lia. }
     replace (S (length r) + S (S (S fi)))%nat with (S (S (S (S (length r + fi))))) by lia.
     apply wp_list_cont_S. unfold eofM, rq. apply wp_bind, wp_get.
-    assert (Hne : eof (p_r s0) = false).
-    { destruct (enc_op_nonempty (d_op d)) as (x & l & Eop). rewrite Eop in Hat. cbn [app] in Hat. apply (at_not_eof _ _ _ _ _ Hat). }
-    rewrite Hne.
-    apply wp_bind. eapply wp_conseq.
-    { eapply (next_const _ s0 g pl pre (d_op d) (d_v d) (enc_ta r) post sc ss a);
-        [exact H|exact Hfree|lia|exact Hat|exact Hc|exact Hv|reflexivity|exact Hsc|exact Hlsc]. }
-    intros res s1 (-> & t1 & -> & H1). change (pres_eqb ROk ROk) with true. cbv iota.
-    set (pl1 := pl ++ [const_pay s0 (lenN pre) (d_op d) (d_v d)]) in *.
-    set (pre1 := pre ++ enc_const d).
-    assert (Hlp1 : lenN pre1 = lenN pre + lenN (enc_const d)) by (unfold pre1; apply lenN_app).
-    assert (Eoff : lenN pre + lenN (enc_op (d_op d)) + N.of_nat (const_bytes (d_op d)) = lenN pre1) by (rewrite Hlp1, lenN_enc_const; lia).
-    rewrite Eoff. change (with_tree (with_r s0 (set_offset_raw (p_r s0) (lenN pre1))) t1) with (st1 (lenN pre1) e t1 (sc :: ss) (e :: es)).
-    replace (S (S (S (length r + fi)))) with (length r + S (S (S fi)))%nat by lia.
-    eapply (IH fo fi (lenN pre1) e t1 sc ss es _ pl1 pre1 post a Q);
-      [exact H1|reflexivity|unfold pl1; rewrite app_length; cbn [length]; lia| |reflexivity| |exact Hel|exact Hok| |exact Hlsc|].
-    { unfold pre1. rewrite Hd, <- !app_assoc. reflexivity. }
-    { rewrite Hlp1. rewrite lenN_app in He. lia. }
-    { unfold pl1. rewrite pget_app_old by exact Hsclt. exact Hsc. }
-    intros t2 H2. specialize (K t2). cbn [g_args cst_pays] in K. unfold enc_ta in K. cbn [flat_map] in K. fold (enc_ta r) in K.
-    rewrite lenN_app, N.add_assoc, <- Hlp1 in K. apply K.
-    rewrite <- g_args_shift. unfold pl1 in H2. rewrite <- app_assoc in H2. cbn [app] in H2. exact H2.
+    assert (Hcont : forall t1 (pl1 : list pay) pre1, lenN pre1 = lenN pre + lenN (enc_targ d) -> data = pre1 ++ enc_ta r ++ post ->
+              pl1 = pl ++ [targ_pay h tbl (lenN pre) d] -> Rep t1 (g_head g sc) pl1 ->
+              wp False (list_cont fo (S (S (S (length r + fi))))) (st1 (lenN pre1) e t1 (sc :: ss) (e :: es)) Q).
+    { intros t1 pl1 pre1 Hlp1 Hd1 Epl1 H1.
+      replace (S (S (S (length r + fi)))) with (length r + S (S (S fi)))%nat by lia.
+      eapply (IH fo fi (lenN pre1) e t1 sc ss es _ pl1 pre1 post a Q);
+        [exact H1|reflexivity|rewrite Epl1, app_length; cbn [length]; lia|exact Hd1|reflexivity| |exact Hel|exact Hok| |exact Hlsc|].
+      { rewrite Hlp1. rewrite lenN_app in He. lia. }
+      { rewrite Epl1. rewrite pget_app_old by exact Hsclt. exact Hsc. }
+      intros t2 H2. specialize (K t2). cbn [g_args cst_pays] in K. unfold enc_ta in K. cbn [flat_map] in K. fold (enc_ta r) in K.
+      rewrite lenN_app, N.add_assoc, <- Hlp1 in K. apply K.
+      rewrite <- g_args_shift. rewrite Epl1 in H2. rewrite <- app_assoc in H2. cbn [app] in H2. exact H2. }
+    destruct d as [d|b]; cbn [targ_okb enc_targ] in *.
+    + unfold cst_okb in Hdok. apply andb_prop in Hdok. destruct Hdok as [Hc Hv]. apply N.ltb_lt in Hv.
+      assert (Hat : at_token (p_r s0) pre (enc_op (d_op d) ++ Grammar.le_bytes (const_bytes (d_op d)) (d_v d) ++ enc_ta r) post).
+      { apply mk_at; [ |reflexivity| |exact Hel|exact Hlen|exact Hsmall|exact Hbytes].
+        - rewrite Hd. unfold enc_const. rewrite <- !app_assoc. reflexivity.
+        - rewrite lenN_app in He. unfold enc_const in He. rewrite !lenN_app in *. lia. }
+      assert (Hne : eof (p_r s0) = false).
+      { destruct (enc_op_nonempty (d_op d)) as (x & l & Eop). rewrite Eop in Hat. cbn [app] in Hat. apply (at_not_eof _ _ _ _ _ Hat). }
+      rewrite Hne.
+      apply wp_bind. eapply wp_conseq.
+      { eapply (next_const _ s0 g pl pre (d_op d) (d_v d) (enc_ta r) post sc ss a);
+          [exact H|exact Hfree|lia|exact Hat|exact Hc|exact Hv|reflexivity|exact Hsc|exact Hlsc]. }
+      intros res s1 (-> & t1 & -> & H1). change (pres_eqb ROk ROk) with true. cbv iota.
+      set (pre1 := pre ++ enc_const d).
+      assert (Hlp1 : lenN pre1 = lenN pre + lenN (enc_const d)) by (unfold pre1; apply lenN_app).
+      assert (Eoff : lenN pre + lenN (enc_op (d_op d)) + N.of_nat (const_bytes (d_op d)) = lenN pre1) by (rewrite Hlp1, lenN_enc_const; lia).
+      rewrite Eoff. change (with_tree (with_r s0 (set_offset_raw (p_r s0) (lenN pre1))) t1) with (st1 (lenN pre1) e t1 (sc :: ss) (e :: es)).
+      apply (Hcont t1 (pl ++ [targ_pay h tbl (lenN pre) (TInt d)]) pre1 Hlp1); [unfold pre1; rewrite Hd, <- !app_assoc; reflexivity|reflexivity|exact H1].
+    + assert (Hasc : Forall ascii_char b).
+      { unfold str_okb in Hdok. rewrite forallb_forall in Hdok. apply Forall_forall. intros c Hc. specialize (Hdok c Hc).
+        apply andb_prop in Hdok. destruct Hdok as [A B]. apply N.leb_le in A. apply N.leb_le in B. unfold ascii_char. lia. }
+      assert (Hat : at_token (p_r s0) pre (aml_pOpStringPrefix :: (b ++ [0]) ++ enc_ta r) post).
+      { apply mk_at; [ |reflexivity| |exact Hel|exact Hlen|exact Hsmall|exact Hbytes].
+        - rewrite Hd. cbn [app]. rewrite <- !app_assoc. reflexivity.
+        - exact He. }
+      rewrite (at_not_eof _ _ _ _ _ Hat).
+      apply wp_bind. eapply wp_conseq.
+      { eapply (next_string _ s0 g pl pre b (enc_ta r) post sc ss a); [exact H|exact Hfree|lia|exact Hat|exact Hasc|reflexivity|exact Hsc|exact Hlsc]. }
+      intros res s1 (-> & t1 & -> & H1). change (pres_eqb ROk ROk) with true. cbv iota.
+      set (pre1 := pre ++ OP_STRING :: b ++ [0]).
+      assert (Hlp1 : lenN pre1 = lenN pre + lenN (OP_STRING :: b ++ [0])) by (unfold pre1; apply lenN_app).
+      assert (Eoff : lenN pre + 1 + lenN b + 1 = lenN pre1) by (rewrite Hlp1, lenN_cons, lenN_app; change (lenN [0]) with 1; lia).
+      rewrite Eoff. change (with_tree (with_r s0 (set_offset_raw (p_r s0) (lenN pre1))) t1) with (st1 (lenN pre1) e t1 (sc :: ss) (e :: es)).
+      apply (Hcont t1 (pl ++ [targ_pay h tbl (lenN pre) (TStr b)]) pre1 Hlp1); [unfold pre1; rewrite Hd, <- !app_assoc; reflexivity|reflexivity|exact H1].
 Qed.
 
 Lemma ispec_leaf lk seg fa ta rest : ISpec rest -> ISpec (ILeaf lk seg fa ta :: rest).
@@ -578,8 +598,8 @@ Proof.
   { rewrite Hlp1. unfold off1. lia. }
   intros t2 H2.
   (* the rest *)
-  set (pl2 := pl1 ++ cst_pays h off1 ta) in *.
-  assert (Hpl2 : pl2 = pl ++ (lf_pay h lk (lenN pre) name_zero :: lhd_pays h tbl lk (lenN pre) fa) ++ cst_pays h (ta_off lk (lenN pre) fa) ta).
+  set (pl2 := pl1 ++ cst_pays h tbl off1 ta) in *.
+  assert (Hpl2 : pl2 = pl ++ (lf_pay h lk (lenN pre) name_zero :: lhd_pays h tbl lk (lenN pre) fa) ++ cst_pays h tbl (ta_off lk (lenN pre) fa) ta).
   { unfold pl2. rewrite Hpl1, <- app_assoc. reflexivity. }
   assert (Hl2 : length pl2 = (length pl + 2 + nf + nt)%nat) by (unfold pl2; rewrite app_length, Hl1, len_cst_pays; fold nt; lia).
   set (pre2 := pre1 ++ enc_ta ta).
